@@ -281,6 +281,24 @@ func gen(c *hx.Ctx) {
 		}
 	}
 
+	// 1c. hash collisions: length-prefixed values whose contents are distinct equal-length strings colliding under the usual
+	// cheap 32-bit hashes (and 16-bit truncations), decoded back-to-back and interleaved by one reader
+	collisionLens := []int{3, 4, 5, 6, 7, 8, 9, 10, 11, 12, 13, 14, 15, 16, 17, 24, 33, 64}
+	for _, col := range findCollisions(hx.NewRng(c.Seed^0x5eedc012), c.Budget(150000, 400000), c.Budget(1, 3), collisionLens) {
+		rec := func(v []byte) []byte { return append(leb(uint32(len(v))), v...) }
+		a, b := rec(col.vals[0]), rec(col.vals[1])
+		var in1, in2 []byte
+		for _, r := range [][]byte{a, b, a, b} {
+			in1 = append(in1, r...)
+		}
+		emit(c, "%s | str ; str ; str ; str", hexOf(in1))
+		for _, r := range [][]byte{a, a, b, {0x07}, b, a, b} {
+			in2 = append(in2, r...)
+		}
+		emit(c, "%s | str ; bytes ; str ; byte ; bytes ; str ; str", hexOf(in2))
+		c.Count("hash_collision_set")
+	}
+
 	// 2. structure-aware random inputs: concatenated pieces (valid, truncated, over-long, hostile prefixes) + matching / random calls
 	for i := 0; i < c.Budget(25000, 600000); i++ {
 		var input []byte
